@@ -23,7 +23,7 @@ import (
 // reason otherwise; fields of types without Init… methods are not concerned.
 func lazyResets(p *load.Program, run *report.Run, pkgs []string) map[string]string {
 	const rule = "lazy-session-state-reset-by-every-init"
-	run.Rule(rule, "for every pointer field that a method creates on first use under a nil test of the field, in a struct type that has methods named Init…: each of those Init… methods stores nil to the field (the state of the previous session is dropped by whichever role re-initialises)")
+	run.Rule(rule, "for every pointer field that a method creates on first use under a nil test of the field while exchanging data with the peer (the creating branch sends or receives through an interface, directly or in a helper), in a struct type that has methods named Init…: each of those Init… methods stores nil to the field (the state of the previous session is dropped by whichever role re-initialises)")
 	want := map[string]bool{}
 	for _, rel := range pkgs {
 		want[load.Module+"/"+rel] = true
@@ -74,8 +74,11 @@ func lazyResets(p *load.Program, run *report.Run, pkgs []string) map[string]stri
 			if !ok {
 				continue
 			}
-			// a store to the same field in the region the true edge dominates
+			// a store to the same field in the region the true edge dominates; the state belongs to the
+			// session if creating it involves the peer (the region sends or receives): a key pair or a table
+			// made from the object's own configuration is the same in every session
 			start := b.Succs[0]
+			stored, talks := false, false
 			for _, x := range fn.Blocks {
 				if !start.Dominates(x) || len(start.Preds) != 1 {
 					continue
@@ -83,10 +86,16 @@ func lazyResets(p *load.Program, run *report.Run, pkgs []string) map[string]stri
 				for _, ins := range x.Instrs {
 					if st, ok := ins.(*ssa.Store); ok {
 						if k2, ok := keyOf(st.Addr); ok && k2 == fk {
-							lazy[fk] = structFieldName(st.Addr.(*ssa.FieldAddr).X.Type(), fk.field)
+							stored = true
 						}
 					}
+					if c, ok := ins.(ssa.CallInstruction); ok && communicates(c, 0) {
+						talks = true
+					}
 				}
+			}
+			if stored && talks {
+				lazy[fk] = structFieldName(ld.X.(*ssa.FieldAddr).X.Type(), fk.field)
 			}
 		}
 	}
@@ -140,4 +149,30 @@ func lazyResets(p *load.Program, run *report.Run, pkgs []string) map[string]stri
 		}
 	}
 	return out
+}
+
+// communicates: the call sends to or receives from the peer — a Send…/Receive…/Flush method invoked through
+// an interface or on a connection, directly or inside a module helper that is handed the interface.
+func communicates(c ssa.CallInstruction, depth int) bool {
+	cc := c.Common()
+	name := ""
+	if cc.IsInvoke() {
+		name = cc.Method.Name()
+	} else if callee := cc.StaticCallee(); callee != nil {
+		name = callee.Name()
+		if callee.Signature.Recv() == nil || !strings.HasSuffix(callee.Signature.Recv().Type().String(), "p2p.Conn") {
+			// a helper of the module: look inside
+			if depth < 2 && callee.Blocks != nil && load.InModule(callee) {
+				for _, b := range callee.Blocks {
+					for _, ins := range b.Instrs {
+						if c2, ok := ins.(ssa.CallInstruction); ok && communicates(c2, depth+1) {
+							return true
+						}
+					}
+				}
+			}
+			return false
+		}
+	}
+	return strings.HasPrefix(name, "Send") || strings.HasPrefix(name, "Receive") || name == "Flush"
 }
